@@ -95,6 +95,33 @@ class FsSeam:
         return False
 
 
+def _filter_canary(mode, wlist, category):
+    """Is a library warning still treated the way the run configured it?
+
+    Called at the end of a call, *before* the per-call filter context is
+    restored (the restoration would hide a filter that the call installed
+    process-wide and did not remove).  Functional rather than structural: a
+    canary warning is issued as if from a ``regions.*`` module and must be
+    recorded (``default``) or raised (``error``); third-party code adding
+    unrelated filters therefore cannot produce an alarm."""
+    n0 = len(wlist)
+    try:
+        warnings.warn_explicit('verif canary', category,
+                               '/verif-canary/regions/canary.py', 1,
+                               module='regions.verif_canary', registry={})
+        got = 'recorded' if len(wlist) == n0 + 1 else 'suppressed'
+    except category:
+        got = 'raised'
+    except Exception as exc:      # pragma: no cover
+        got = f'answered with {type(exc).__name__}'
+    del wlist[n0:]
+    want = 'raised' if mode == 'error' else 'recorded'
+    if got == want:
+        return None
+    return (f'after the call a library warning is {got} (the process was '
+            f'configured so that it is {want})')
+
+
 @contextlib.contextmanager
 def warnings_mode(mode, record):
     """Run a call under the run's warnings configuration.
@@ -115,6 +142,9 @@ def warnings_mode(mode, record):
         try:
             yield wlist
         finally:
+            leak = _filter_canary(mode, wlist, AstropyUserWarning)
+            if leak:
+                record.append(['<warning filters>', leak])
             for w in wlist:
                 fn = (w.filename or '')
                 if '/regions/' in fn:
